@@ -130,7 +130,7 @@ func mask(w int) uint64 {
 var tTrue = mk("const", 0, "", 1)
 var tFalse = mk("const", 0, "", 0)
 
-func bvConst(v uint64, w int) *Term { return mk("const", w, "", v&mask(w)) }
+func bvConst(v uint64, w int) *Term  { return mk("const", w, "", v&mask(w)) }
 func bvVar(name string, w int) *Term { return mk("var", w, name, 0) }
 
 func tNot(a *Term) *Term {
